@@ -1,7 +1,1361 @@
-//! C15 — not built yet (stub).
+//! C15 — Cached answers expire on time and TTLs only count down.
+//!
+//! Histories of `insert(q, result, t)` / `get(q, t)` over three queries with non-decreasing `t`
+//! are run against the real `hickory_resolver::ResponseCache` under the interposed virtual clock
+//! (moka reads `std::time::Instant`; the clock is set to `t` before every operation so moka's own
+//! expiry and the `Instant` handed to the cache agree, as they do for the real callers, which
+//! pass `Instant::now()`). The oracle is `refm::cache_ref` (own model, written from the property
+//! statement and the `TtlConfig` rustdoc).
+//!
+//! `ResponseCache::clear` / `clear_query` are `pub(crate)`: they cannot be called on a cache with
+//! a caller-chosen `TtlConfig` from outside the crate. The `clear` operation of the quantifier is
+//! therefore exercised through the only public route, `CachingClient::{clear_cache,
+//! clear_cache_query}` (sub-property `client_clear`, default `TtlConfig`).
 
-use crate::core::Check;
+use std::sync::Arc;
+use std::time::Instant;
+
+use hickory_net::{DnsError, NetError, NoRecords};
+use hickory_proto::op::{DnsResponse, Message, OpCode, Query, ResponseCode};
+use hickory_proto::rr::rdata::{A, AAAA, CNAME, MX, NS, SOA, TXT};
+use hickory_proto::rr::{Name, RData, Record, RecordType};
+use hickory_resolver::{ResponseCache, TtlConfig};
+use proptest::collection::vec;
+use proptest::prelude::*;
+use serde::{Deserialize, Serialize};
+use serde_json::json;
+
+use crate::clock::{self, VirtualClock};
+use crate::core::{prop, CaseResult, Check, Fail, Rec, Tier};
+use crate::refm::cache_ref::{self as cref, Bounds, Config, Lifetime};
+
+const NS_PER_S: u64 = 1_000_000_000;
+
+// ---------------------------------------------------------------------------------------------
+// case type
+
+#[derive(Clone, Copy, Debug, PartialEq, Eq, Hash, Serialize, Deserialize)]
+pub enum TypeK {
+    A,
+    AAAA,
+    TXT,
+    MX,
+    NS,
+    CNAME,
+    SOA,
+}
+
+impl TypeK {
+    fn code(self) -> u16 {
+        // RFC 1035 §3.2.2, RFC 3596 §2.1
+        match self {
+            TypeK::A => 1,
+            TypeK::NS => 2,
+            TypeK::CNAME => 5,
+            TypeK::SOA => 6,
+            TypeK::MX => 15,
+            TypeK::TXT => 16,
+            TypeK::AAAA => 28,
+        }
+    }
+    fn rt(self) -> RecordType {
+        match self {
+            TypeK::A => RecordType::A,
+            TypeK::AAAA => RecordType::AAAA,
+            TypeK::TXT => RecordType::TXT,
+            TypeK::MX => RecordType::MX,
+            TypeK::NS => RecordType::NS,
+            TypeK::CNAME => RecordType::CNAME,
+            TypeK::SOA => RecordType::SOA,
+        }
+    }
+    fn key(self) -> &'static str {
+        match self {
+            TypeK::A => "A",
+            TypeK::AAAA => "AAAA",
+            TypeK::TXT => "TXT",
+            TypeK::MX => "MX",
+            TypeK::NS => "NS",
+            TypeK::CNAME => "CNAME",
+            TypeK::SOA => "SOA",
+        }
+    }
+}
+
+/// record type relative to the query the message answers
+#[derive(Clone, Copy, Debug, PartialEq, Eq, Serialize, Deserialize)]
+enum RType {
+    /// the queried type
+    Q,
+    Cname,
+    Other(TypeK),
+}
+
+#[derive(Clone, Debug, Serialize, Deserialize)]
+struct RecSpec {
+    /// 0 answer, 1 authority, 2 additional
+    sec: u8,
+    ty: RType,
+    ttl: u32,
+    owner: u8,
+    v: u8,
+}
+
+#[derive(Clone, Copy, Debug, Serialize, Deserialize)]
+enum Transient {
+    Timeout,
+    Io,
+    ServFail,
+    Refused,
+    Busy,
+    NoConnections,
+    Msg,
+}
+
+#[derive(Clone, Debug, Serialize, Deserialize)]
+enum NegMode {
+    /// `NoRecords` assembled field by field
+    Direct {
+        negative_ttl: Option<u32>,
+        soa_ttl: Option<u32>,
+        auth_ttl: Option<u32>,
+        /// (NS ttl, glue ttl)
+        ns_ttl: Option<(u32, u32)>,
+    },
+    /// what the resolver does: NXDOMAIN/NODATA response message -> `DnsError::from_response`;
+    /// soa = (SOA record TTL, SOA MINIMUM)
+    FromResponse { soa: Option<(u32, u32)>, ns_ttl: Option<u32> },
+}
+
+#[derive(Clone, Debug, Serialize, Deserialize)]
+enum Res {
+    Pos { recs: Vec<RecSpec> },
+    Neg { nx: bool, mode: NegMode },
+    Transient(Transient),
+}
+
+#[derive(Clone, Copy, Debug, Serialize, Deserialize)]
+enum Off {
+    M1s,
+    M1ns,
+    Zero,
+    P1ns,
+    P500ms,
+    P1s,
+}
+
+#[derive(Clone, Copy, Debug, Serialize, Deserialize)]
+enum Step {
+    Same,
+    Ms(u32),
+    Secs(u32),
+    /// jump to (expiry of the newest entry of query `q` by the model) + off, if that is not in the past
+    Near { q: u8, hi: bool, off: Off },
+}
+
+#[derive(Clone, Debug, Serialize, Deserialize)]
+enum Op {
+    Insert { q: u8, res: Res },
+    Get { q: u8 },
+}
+
+#[derive(Clone, Debug, Serialize, Deserialize)]
+struct Hist {
+    cfg: Config,
+    qa: TypeK,
+    qb: TypeK,
+    cap: u16,
+    ops: Vec<(Step, Op)>,
+}
+
+// ---------------------------------------------------------------------------------------------
+// strategies
+
+fn ttl() -> impl Strategy<Value = u32> {
+    prop_oneof![
+        6 => 0u32..12,
+        2 => 0u32..130,
+        1 => 3_595u32..3_605,
+        1 => 86_395u32..86_405,
+        1 => 100_000u32..200_000,
+        // RFC 2181 §8: the largest legal TTL
+        1 => Just(0x7fff_ffffu32),
+    ]
+}
+
+fn bound_min() -> impl Strategy<Value = Option<u64>> {
+    prop_oneof![
+        5 => Just(None),
+        1 => Just(Some(0u64)),
+        4 => (1u64..10).prop_map(Some),
+        1 => prop::sample::select(vec![30u64, 60, 100, 3_600]).prop_map(Some),
+        1 => prop::sample::select(vec![86_400u64, 100_000]).prop_map(Some),
+    ]
+}
+
+fn bound_max() -> impl Strategy<Value = Option<u64>> {
+    prop_oneof![
+        5 => Just(None),
+        1 => Just(Some(0u64)),
+        4 => (1u64..10).prop_map(Some),
+        1 => prop::sample::select(vec![30u64, 60, 100, 3_600]).prop_map(Some),
+        1 => prop::sample::select(vec![86_400u64, 200_000]).prop_map(Some),
+    ]
+}
+
+fn fix(min: Option<u64>, max: Option<u64>) -> (Option<u64>, Option<u64>) {
+    // the domain is min <= max (after defaults); an inverted pair becomes the min = max class
+    let (lo, hi) = (min.unwrap_or(0), max.unwrap_or(cref::DAY));
+    if lo > hi {
+        (min, min)
+    } else {
+        (min, max)
+    }
+}
+
+fn bounds() -> impl Strategy<Value = Bounds> {
+    (bound_min(), bound_max(), bound_min(), bound_max(), 0u8..8).prop_map(|(a, b, c, d, eq)| {
+        let (mut pmin, mut pmax) = fix(a, b);
+        let (mut nmin, mut nmax) = fix(c, d);
+        // explicit min = max class
+        if eq == 0 && pmin.is_some() {
+            pmax = pmin;
+        }
+        if eq == 1 && nmin.is_some() {
+            nmax = nmin;
+        }
+        if eq == 2 {
+            pmin = pmin.or(Some(0));
+            nmin = nmin.or(Some(0));
+        }
+        Bounds { pmin, pmax, nmin, nmax }
+    })
+}
+
+fn typek() -> impl Strategy<Value = TypeK> {
+    prop::sample::select(vec![TypeK::A, TypeK::AAAA, TypeK::TXT, TypeK::MX, TypeK::NS, TypeK::CNAME, TypeK::SOA])
+}
+
+fn qtypek() -> impl Strategy<Value = TypeK> {
+    prop::sample::select(vec![TypeK::A, TypeK::AAAA, TypeK::TXT, TypeK::MX, TypeK::NS, TypeK::CNAME])
+}
+
+fn config() -> impl Strategy<Value = Config> {
+    (
+        prop_oneof![1 => Just(Bounds::default()), 4 => bounds()],
+        vec((typek(), bounds()), 0..=3),
+    )
+        .prop_map(|(default, per)| {
+            let mut by_type: Vec<(u16, Bounds)> = Vec::new();
+            for (t, b) in per {
+                by_type.retain(|(c, _)| *c != t.code());
+                by_type.push((t.code(), b));
+            }
+            Config { default, by_type }
+        })
+}
+
+fn recspec() -> impl Strategy<Value = RecSpec> {
+    (
+        prop_oneof![3 => Just(0u8), 1 => Just(1u8), 1 => Just(2u8)],
+        prop_oneof![
+            5 => Just(RType::Q),
+            2 => Just(RType::Cname),
+            4 => typek().prop_map(RType::Other),
+        ],
+        ttl(),
+        0u8..3,
+        any::<u8>(),
+    )
+        .prop_map(|(sec, ty, ttl, owner, v)| RecSpec { sec, ty, ttl, owner, v })
+}
+
+fn opt_ttl() -> impl Strategy<Value = Option<u32>> {
+    prop_oneof![1 => Just(None), 3 => ttl().prop_map(Some)]
+}
+
+fn res() -> impl Strategy<Value = Res> {
+    let neg_mode = prop_oneof![
+        1 => (opt_ttl(), opt_ttl(), opt_ttl(), prop_oneof![2 => Just(None), 1 => (ttl(), ttl()).prop_map(Some)]).prop_map(
+            |(negative_ttl, soa_ttl, auth_ttl, ns_ttl)| NegMode::Direct {
+                negative_ttl,
+                soa_ttl,
+                auth_ttl,
+                ns_ttl
+            }
+        ),
+        1 => (prop_oneof![1 => Just(None), 4 => (ttl(), ttl()).prop_map(Some)], opt_ttl())
+            .prop_map(|(soa, ns_ttl)| NegMode::FromResponse { soa, ns_ttl }),
+    ];
+    prop_oneof![
+        11 => vec(recspec(), 0..=6).prop_map(|recs| Res::Pos { recs }),
+        5 => (any::<bool>(), neg_mode).prop_map(|(nx, mode)| Res::Neg { nx, mode }),
+        4 => prop::sample::select(vec![
+            Transient::Timeout,
+            Transient::Io,
+            Transient::ServFail,
+            Transient::Refused,
+            Transient::Busy,
+            Transient::NoConnections,
+            Transient::Msg,
+        ])
+        .prop_map(Res::Transient),
+    ]
+}
+
+fn step() -> impl Strategy<Value = Step> {
+    prop_oneof![
+        4 => Just(Step::Same),
+        2 => prop::sample::select(vec![1u32, 250, 500, 999]).prop_map(Step::Ms),
+        6 => (1u32..6).prop_map(Step::Secs),
+        1 => prop::sample::select(vec![30u32, 60, 100, 3_600, 86_400, 90_000]).prop_map(Step::Secs),
+        5 => (
+            0u8..3,
+            any::<bool>(),
+            prop::sample::select(vec![Off::M1s, Off::M1ns, Off::Zero, Off::P1ns, Off::P500ms, Off::P1s])
+        )
+            .prop_map(|(q, hi, off)| Step::Near { q, hi, off }),
+    ]
+}
+
+fn op() -> impl Strategy<Value = Op> {
+    prop_oneof![
+        4 => (0u8..3, res()).prop_map(|(q, res)| Op::Insert { q, res }),
+        6 => (0u8..3).prop_map(|q| Op::Get { q }),
+    ]
+}
+
+fn hist(tier: Tier) -> impl Strategy<Value = Hist> {
+    let max_ops = match tier {
+        Tier::Quick => 30usize,
+        Tier::Thorough => 40usize,
+    };
+    (
+        config(),
+        qtypek(),
+        qtypek(),
+        prop_oneof![9 => Just(64u16), 1 => 1u16..4],
+        vec((step(), op()), 1..=max_ops),
+    )
+        .prop_map(|(cfg, qa, qb, cap, ops)| Hist { cfg, qa, qb, cap, ops })
+}
+
+// ---------------------------------------------------------------------------------------------
+// building hickory values
+
+fn name(s: &str) -> Name {
+    Name::from_ascii(s).expect("fixed test name")
+}
+
+fn owner(i: u8) -> Name {
+    match i % 3 {
+        0 => name("a.example."),
+        1 => name("b.example."),
+        _ => name("alias.example."),
+    }
+}
+
+fn rdata(t: TypeK, v: u8) -> RData {
+    match t {
+        TypeK::A => RData::A(A::new(192, 0, 2, v)),
+        TypeK::AAAA => RData::AAAA(AAAA::new(0x2001, 0xdb8, 0, 0, 0, 0, 0, v as u16)),
+        TypeK::TXT => RData::TXT(TXT::new(vec![format!("v={v}")])),
+        TypeK::MX => RData::MX(MX::new(v as u16, name("mx.example."))),
+        TypeK::NS => RData::NS(NS(name(&format!("ns{}.example.", v % 4)))),
+        TypeK::CNAME => RData::CNAME(CNAME(name(&format!("t{}.example.", v % 4)))),
+        TypeK::SOA => RData::SOA(soa_rdata(v as u32, 3_600)),
+    }
+}
+
+fn soa_rdata(serial: u32, minimum: u32) -> SOA {
+    SOA::new(name("ns.example."), name("admin.example."), serial, 7_200, 600, 86_400, minimum)
+}
+
+fn cfg_json(c: &Config) -> serde_json::Value {
+    fn b(b: &Bounds) -> serde_json::Value {
+        let mut m = serde_json::Map::new();
+        if let Some(v) = b.pmin {
+            m.insert("positive_min_ttl".into(), json!(v));
+        }
+        if let Some(v) = b.pmax {
+            m.insert("positive_max_ttl".into(), json!(v));
+        }
+        if let Some(v) = b.nmin {
+            m.insert("negative_min_ttl".into(), json!(v));
+        }
+        if let Some(v) = b.nmax {
+            m.insert("negative_max_ttl".into(), json!(v));
+        }
+        serde_json::Value::Object(m)
+    }
+    let mut m = serde_json::Map::new();
+    m.insert("default".into(), b(&c.default));
+    for (code, bb) in &c.by_type {
+        let k = [TypeK::A, TypeK::AAAA, TypeK::TXT, TypeK::MX, TypeK::NS, TypeK::CNAME, TypeK::SOA]
+            .into_iter()
+            .find(|t| t.code() == *code)
+            .expect("known type code");
+        m.insert(k.key().into(), b(bb));
+    }
+    serde_json::Value::Object(m)
+}
+
+// ---------------------------------------------------------------------------------------------
+// model entries
+
+/// one TTL-bearing value of a cached result, in a fixed order, with its record type (0 = the
+/// bare `negative_ttl` number)
+#[derive(Clone, Debug)]
+struct TtlSlot {
+    rtype: u16,
+    upstream: u32,
+}
+
+#[derive(Clone, Debug)]
+enum Content {
+    Pos(Message),
+    Neg(NoRecords),
+}
+
+#[derive(Clone, Debug)]
+struct MEntry {
+    t_ins: u64,
+    op_index: usize,
+    content: Content,
+    slots: Vec<TtlSlot>,
+    life: Option<Lifetime>,
+    last_reported: Option<(u64, Vec<u32>)>,
+}
+
+fn pos_ttls(m: &Message) -> Vec<u32> {
+    m.answers.iter().chain(m.authorities.iter()).chain(m.additionals.iter()).map(|r| r.ttl).collect()
+}
+
+fn neg_ttls(n: &NoRecords) -> Vec<u32> {
+    let mut v = Vec::new();
+    if let Some(t) = n.negative_ttl {
+        v.push(t);
+    }
+    if let Some(s) = &n.soa {
+        v.push(s.ttl);
+    }
+    if let Some(a) = &n.authorities {
+        v.extend(a.iter().map(|r| r.ttl));
+    }
+    if let Some(ns) = &n.ns {
+        for d in ns.iter() {
+            v.push(d.ns.ttl);
+            v.extend(d.glue.iter().map(|r| r.ttl));
+        }
+    }
+    v
+}
+
+fn neg_slots(n: &NoRecords) -> Vec<TtlSlot> {
+    let mut v = Vec::new();
+    if let Some(t) = n.negative_ttl {
+        v.push(TtlSlot { rtype: 0, upstream: t });
+    }
+    if let Some(s) = &n.soa {
+        v.push(TtlSlot { rtype: 6, upstream: s.ttl });
+    }
+    if let Some(a) = &n.authorities {
+        v.extend(a.iter().map(|r| TtlSlot {
+            rtype: u16::from(r.record_type()),
+            upstream: r.ttl,
+        }));
+    }
+    if let Some(ns) = &n.ns {
+        for d in ns.iter() {
+            v.push(TtlSlot {
+                rtype: 2,
+                upstream: d.ns.ttl,
+            });
+            v.extend(d.glue.iter().map(|r| TtlSlot {
+                rtype: u16::from(r.record_type()),
+                upstream: r.ttl,
+            }));
+        }
+    }
+    v
+}
+
+fn same_records(a: &[Record], b: &[Record]) -> bool {
+    a.len() == b.len()
+        && a.iter()
+            .zip(b)
+            .all(|(x, y)| x.name == y.name && x.dns_class == y.dns_class && x.record_type() == y.record_type() && x.data == y.data)
+}
+
+fn same_pos(a: &Message, b: &Message) -> bool {
+    a.metadata.id == b.metadata.id
+        && a.metadata.response_code == b.metadata.response_code
+        && same_records(&a.answers, &b.answers)
+        && same_records(&a.authorities, &b.authorities)
+        && same_records(&a.additionals, &b.additionals)
+}
+
+fn same_neg(a: &NoRecords, b: &NoRecords) -> bool {
+    let soa_eq = match (&a.soa, &b.soa) {
+        (None, None) => true,
+        (Some(x), Some(y)) => x.name == y.name && x.data == y.data,
+        _ => false,
+    };
+    let auth_eq = match (&a.authorities, &b.authorities) {
+        (None, None) => true,
+        (Some(x), Some(y)) => same_records(x, y),
+        _ => false,
+    };
+    let ns_eq = match (&a.ns, &b.ns) {
+        (None, None) => true,
+        (Some(x), Some(y)) => {
+            x.len() == y.len()
+                && x.iter()
+                    .zip(y.iter())
+                    .all(|(p, q)| same_records(std::slice::from_ref(&p.ns), std::slice::from_ref(&q.ns)) && same_records(&p.glue, &q.glue))
+        }
+        _ => false,
+    };
+    a.response_code == b.response_code
+        && a.negative_ttl.is_some() == b.negative_ttl.is_some()
+        && *a.query == *b.query
+        && soa_eq
+        && auth_eq
+        && ns_eq
+}
+
+fn harness(msg: impl Into<String>) -> Fail {
+    Fail::new("harness", msg)
+}
+
+// ---------------------------------------------------------------------------------------------
+// the property body
+
+fn off_ns(o: Off) -> i64 {
+    match o {
+        Off::M1s => -(NS_PER_S as i64),
+        Off::M1ns => -1,
+        Off::Zero => 0,
+        Off::P1ns => 1,
+        Off::P500ms => 500_000_000,
+        Off::P1s => NS_PER_S as i64,
+    }
+}
+
+fn build_pos(id: u16, q: &Query, qtype: TypeK, recs: &[RecSpec]) -> Message {
+    let mut m = Message::response(id, OpCode::Query);
+    m.add_query(q.clone());
+    for r in recs {
+        let t = match r.ty {
+            RType::Q => qtype,
+            RType::Cname => TypeK::CNAME,
+            RType::Other(t) => t,
+        };
+        let rr = Record::from_rdata(owner(r.owner), r.ttl, rdata(t, r.v));
+        match r.sec {
+            0 => m.add_answer(rr),
+            1 => m.add_authority(rr),
+            _ => m.add_additional(rr),
+        };
+    }
+    m
+}
+
+fn build_neg(idx: usize, q: &Query, nx: bool, mode: &NegMode) -> Result<Option<NoRecords>, Fail> {
+    let code = if nx { ResponseCode::NXDomain } else { ResponseCode::NoError };
+    let zone = name("example.");
+    match mode {
+        NegMode::Direct {
+            negative_ttl,
+            soa_ttl,
+            auth_ttl,
+            ns_ttl,
+        } => {
+            let mut n = NoRecords::new(q.clone(), code);
+            n.negative_ttl = *negative_ttl;
+            if let Some(t) = soa_ttl {
+                n.soa = Some(Box::new(Record::from_rdata(zone.clone(), *t, soa_rdata(idx as u32, 300))));
+            }
+            if let Some(t) = auth_ttl {
+                n.authorities = Some(Arc::from(vec![Record::from_rdata(zone.clone(), *t, rdata(TypeK::NS, idx as u8))]));
+            }
+            if let Some((t, g)) = ns_ttl {
+                n.ns = Some(Arc::from(vec![hickory_net::ForwardNSData {
+                    ns: Record::from_rdata(zone.clone(), *t, rdata(TypeK::NS, 1)),
+                    glue: Arc::from(vec![Record::from_rdata(name("ns1.example."), *g, rdata(TypeK::A, idx as u8))]),
+                }]));
+            }
+            Ok(Some(n))
+        }
+        NegMode::FromResponse { soa, ns_ttl } => {
+            let mut m = Message::response(idx as u16, OpCode::Query);
+            m.metadata.response_code = code;
+            m.add_query(q.clone());
+            if let Some((t, minimum)) = soa {
+                m.add_authority(Record::from_rdata(zone.clone(), *t, RData::SOA(soa_rdata(idx as u32, *minimum))));
+            }
+            if let Some(t) = ns_ttl {
+                m.add_authority(Record::from_rdata(zone.clone(), *t, rdata(TypeK::NS, 1)));
+            }
+            let resp = DnsResponse::from_message(m).map_err(|e| harness(format!("cannot build response: {e}")))?;
+            match DnsError::from_response(resp) {
+                Err(DnsError::NoRecordsFound(n)) => Ok(Some(n)),
+                _ => Ok(None),
+            }
+        }
+    }
+}
+
+fn transient(t: Transient) -> NetError {
+    match t {
+        Transient::Timeout => NetError::Timeout,
+        Transient::Io => NetError::Io(Arc::new(std::io::Error::new(std::io::ErrorKind::ConnectionReset, "reset"))),
+        Transient::ServFail => NetError::Dns(DnsError::ResponseCode(ResponseCode::ServFail)),
+        Transient::Refused => NetError::Dns(DnsError::ResponseCode(ResponseCode::Refused)),
+        Transient::Busy => NetError::Busy,
+        Transient::NoConnections => NetError::NoConnections,
+        Transient::Msg => NetError::Message("upstream failed"),
+    }
+}
+
+fn render(h: &Hist) -> String {
+    let mut s = format!("cfg={} q=[a/{:?}, a/{:?}, b/{:?}] cap={}:", cfg_json(&h.cfg), h.qa, h.qb, h.qa, h.cap);
+    for (st, op) in &h.ops {
+        let st = match st {
+            Step::Same => "+0".to_string(),
+            Step::Ms(m) => format!("+{m}ms"),
+            Step::Secs(x) => format!("+{x}s"),
+            Step::Near { q, hi, off } => format!("@expiry(q{q},{},{off:?})", if *hi { "hi" } else { "lo" }),
+        };
+        match op {
+            Op::Get { q } => s.push_str(&format!(" {st} get(q{q});")),
+            Op::Insert { q, res } => {
+                let r = match res {
+                    Res::Pos { recs } => format!(
+                        "pos[{}]",
+                        recs.iter().map(|r| format!("{}:{:?}/{}", r.sec, r.ty, r.ttl)).collect::<Vec<_>>().join(",")
+                    ),
+                    Res::Neg { nx, mode } => format!("neg(nx={nx},{mode:?})"),
+                    Res::Transient(t) => format!("{t:?}"),
+                };
+                s.push_str(&format!(" {st} insert(q{q},{r});"));
+            }
+        }
+    }
+    s
+}
+
+fn body(h: &Hist, rec: &mut Rec) -> CaseResult {
+    if !h.cfg.consistent() {
+        rec.discard("bounds-min-above-max");
+        return Ok(());
+    }
+    if h.qa == h.qb {
+        rec.class("qa=qb");
+    }
+    let cfg = &h.cfg;
+    // virtual clock first, so that moka's clock origin is virtual time 0 (guard dropped last)
+    let _clock = VirtualClock::start(1_700_000_000);
+    let ttl_config: TtlConfig =
+        serde_json::from_value(cfg_json(cfg)).map_err(|e| harness(format!("TtlConfig from JSON {}: {e}", cfg_json(cfg))))?;
+    let cache = ResponseCache::new(h.cap as u64, ttl_config);
+
+    let qtypes = [h.qa, h.qb, h.qa];
+    let queries = [
+        Query::new(name("a.example."), h.qa.rt()),
+        Query::new(name("a.example."), h.qb.rt()),
+        Query::new(name("b.example."), h.qa.rt()),
+    ];
+    // with qa == qb the first two queries are one cache key
+    let slot_of = |q: u8| -> usize {
+        let q = (q % 3) as usize;
+        if q == 1 && h.qa == h.qb {
+            0
+        } else {
+            q
+        }
+    };
+    let mut model: [Vec<MEntry>; 3] = [Vec::new(), Vec::new(), Vec::new()];
+    let mut now_ns: u64 = 0;
+    let big_cap = h.cap >= 8;
+
+    let (mut nt_reinsert_live, mut nt_near_expiry, mut nt_mixed_bounds) = (false, false, false);
+    let (mut live_gets, mut live_hits, mut hits, mut gets) = (0u64, 0u64, 0u64, 0u64);
+    let (mut inserts_pos, mut inserts_neg, mut inserts_transient) = (0u64, 0u64, 0u64);
+    let mut readings_differ = false;
+    let mut neg_unclamped_seen = false;
+    let mut no_l_entries = 0u64;
+
+    for (i, (st, op)) in h.ops.iter().enumerate() {
+        // ---- time ----------------------------------------------------------------------------
+        now_ns = match *st {
+            Step::Same => now_ns,
+            Step::Ms(m) => now_ns + m as u64 * 1_000_000,
+            Step::Secs(s) => now_ns + s as u64 * NS_PER_S,
+            Step::Near { q, hi, off } => {
+                let target = model[slot_of(q)].last().and_then(|e| {
+                    let l = e.life?;
+                    let l = if hi { l.hi } else { l.lo };
+                    (e.t_ins + l * NS_PER_S).checked_add_signed(off_ns(off))
+                });
+                match target {
+                    Some(t) if t >= now_ns => t,
+                    _ => now_ns,
+                }
+            }
+        };
+        clock::set_virtual_nanos(now_ns);
+        let now = Instant::now();
+
+        match op {
+            // ---- insert ----------------------------------------------------------------------
+            Op::Insert { q, res } => {
+                let s = slot_of(*q);
+                let (query, qtype) = (&queries[s], qtypes[s]);
+                let live_before = model[s]
+                    .last()
+                    .map(|e| e.life.is_some_and(|l| now_ns - e.t_ins < l.lo * NS_PER_S))
+                    .unwrap_or(false);
+                match res {
+                    Res::Pos { recs } => {
+                        let msg = build_pos(i as u16, query, qtype, recs);
+                        let typed: Vec<(u16, u32)> = msg.all_sections().map(|r| (u16::from(r.record_type()), r.ttl)).collect();
+                        let life = cref::positive_lifetime(cfg, qtype.code(), &typed);
+                        if let Some(l) = life {
+                            readings_differ |= l.lo != l.hi;
+                        } else {
+                            no_l_entries += 1;
+                        }
+                        let qb = cfg.bounds_for(qtype.code());
+                        if typed.iter().any(|(t, ttl)| {
+                            let rb = cfg.bounds_for(*t);
+                            rb != qb && cref::clamp(*ttl as u64, rb.pos()) != cref::clamp(*ttl as u64, qb.pos())
+                        }) {
+                            nt_mixed_bounds = true;
+                        }
+                        let slots = typed.iter().map(|(t, ttl)| TtlSlot { rtype: *t, upstream: *ttl }).collect();
+                        cache.insert(query.clone(), Ok(msg.clone()), now);
+                        model[s].push(MEntry {
+                            t_ins: now_ns,
+                            op_index: i,
+                            content: Content::Pos(msg),
+                            slots,
+                            life,
+                            last_reported: None,
+                        });
+                        inserts_pos += 1;
+                        nt_reinsert_live |= live_before;
+                    }
+                    Res::Neg { nx, mode } => {
+                        let Some(n) = build_neg(i, query, *nx, mode)? else {
+                            rec.discard("from-response-not-negative");
+                            return Ok(());
+                        };
+                        if let NegMode::FromResponse { soa, .. } = mode {
+                            // RFC 2308 §5: negative TTL = min(SOA TTL, SOA MINIMUM)
+                            let exp = soa.map(|(t, m)| cref::rfc2308_negative_ttl(t, m));
+                            vensure!(
+                                n.negative_ttl == exp,
+                                "negative-ttl-not-rfc2308",
+                                "SOA (ttl, minimum) = {soa:?}: negative TTL {:?}, RFC 2308 §5 says {exp:?}",
+                                n.negative_ttl
+                            );
+                        }
+                        let life = cref::negative_lifetime(cfg, qtype.code(), n.negative_ttl);
+                        if life.is_none() {
+                            no_l_entries += 1;
+                        }
+                        let slots = neg_slots(&n);
+                        cache.insert(query.clone(), Err(NetError::from(n.clone())), now);
+                        model[s].push(MEntry {
+                            t_ins: now_ns,
+                            op_index: i,
+                            content: Content::Neg(n),
+                            slots,
+                            life,
+                            last_reported: None,
+                        });
+                        inserts_neg += 1;
+                        nt_reinsert_live |= live_before;
+                    }
+                    Res::Transient(t) => {
+                        // "transient errors are never cached": the model does not change
+                        cache.insert(query.clone(), Err(transient(*t)), now);
+                        inserts_transient += 1;
+                    }
+                }
+            }
+            // ---- get -------------------------------------------------------------------------
+            Op::Get { q } => {
+                let s = slot_of(*q);
+                let query = &queries[s];
+                let qtype = qtypes[s];
+                gets += 1;
+                let got = cache.get(query, now);
+                let newest = model[s].last();
+                // "certainly live" leaves 1 ms of slack before the expiry instant: moka stores expiry
+                // instants with 4,096 ns granularity (rounded down), so an entry may vanish a few
+                // microseconds early, which the statement allows (None is always acceptable)
+                let certainly_live = newest
+                    .map(|e| e.life.is_some_and(|l| now_ns - e.t_ins + 1_000_000 <= l.lo * NS_PER_S))
+                    .unwrap_or(false);
+                if let Some(l) = newest.and_then(|e| e.life.map(|l| (e.t_ins, l))) {
+                    for edge in [l.1.lo, l.1.hi] {
+                        let exp = l.0 + edge * NS_PER_S;
+                        if now_ns.abs_diff(exp) <= NS_PER_S {
+                            nt_near_expiry = true;
+                        }
+                    }
+                }
+                if certainly_live && big_cap {
+                    live_gets += 1;
+                }
+                let Some(result) = got else {
+                    // eviction is always allowed
+                    continue;
+                };
+                hits += 1;
+                if certainly_live && big_cap {
+                    live_hits += 1;
+                }
+                if let Err(e) = &result {
+                    // "transient errors are never cached"
+                    if !matches!(e, NetError::Dns(DnsError::NoRecordsFound(_))) {
+                        vfail!("transient-error-served-from-cache", "op {i}: get(q{s}) returned the error {e:?}");
+                    }
+                }
+                let Some(entry) = model[s].last_mut() else {
+                    vfail!(
+                        "get-without-cacheable-insert",
+                        "op {i}: get(q{s}) returned {} although nothing cacheable was ever inserted for it",
+                        if result.is_ok() { "a message" } else { "an error" }
+                    );
+                };
+                let elapsed = now_ns - entry.t_ins;
+                // (a) what came back is the newest cacheable insert, never a transient error
+                let reported: Vec<u32> = match (&result, &entry.content) {
+                    (Ok(m), Content::Pos(stored)) if same_pos(m, stored) => pos_ttls(m),
+                    (Err(NetError::Dns(DnsError::NoRecordsFound(n))), Content::Neg(stored)) if same_neg(n, stored) => neg_ttls(n),
+                    (Err(e), _) if !matches!(e, NetError::Dns(DnsError::NoRecordsFound(_))) => {
+                        vfail!("transient-error-served-from-cache", "op {i}: get(q{s}) returned the error {e:?}");
+                    }
+                    _ => {
+                        vfail!(
+                            "returned-entry-is-not-newest-insert",
+                            "op {i}: get(q{s}) at t={:.3}s returned {:?}, newest cacheable insert (op {}) was {:?}",
+                            now_ns as f64 / 1e9,
+                            result,
+                            entry.op_index,
+                            entry.content
+                        );
+                    }
+                };
+                // (b) lifetime
+                if let Some(l) = entry.life {
+                    let positive = matches!(entry.content, Content::Pos(_));
+                    vensure!(
+                        elapsed <= l.hi * NS_PER_S,
+                        if positive { "positive-served-past-lifetime" } else { "negative-served-past-lifetime" },
+                        "op {i}: get(q{s}) served an entry {:.9}s after its insertion (op {}), L = {}s (cfg {})",
+                        elapsed as f64 / 1e9,
+                        entry.op_index,
+                        l.hi,
+                        cfg_json(cfg)
+                    );
+                }
+                // (c) reported TTLs
+                vensure!(
+                    reported.len() == entry.slots.len(),
+                    "harness",
+                    "slot count mismatch {} vs {}",
+                    reported.len(),
+                    entry.slots.len()
+                );
+                match entry.content {
+                    Content::Pos(_) => {
+                        for (k, (slot, got)) in entry.slots.iter().zip(&reported).enumerate() {
+                            let stored = cref::clamp_record_ttl(cfg, slot.rtype, slot.upstream);
+                            let exp = cref::reported(stored, elapsed);
+                            vensure!(
+                                *got as u64 == exp,
+                                "positive-ttl-not-clamped-minus-elapsed",
+                                "op {i}: get(q{s}) {:.3}s after insert: record {k} (type {}, upstream TTL {}, bounds {:?}) reports TTL {got}, expected clamp={stored} - elapsed = {exp}",
+                                elapsed as f64 / 1e9,
+                                slot.rtype,
+                                slot.upstream,
+                                cfg.bounds_for(slot.rtype).pos()
+                            );
+                        }
+                    }
+                    Content::Neg(_) => {
+                        // the statement does not say which bounds (if any) apply to the TTL values
+                        // inside a negative answer: accept the unclamped value and both clampings
+                        let nb = cfg.bounds_for(qtype.code()).neg();
+                        for (k, (slot, got)) in entry.slots.iter().zip(&reported).enumerate() {
+                            let raw = slot.upstream as u64;
+                            let mut cands = vec![raw, cref::clamp(raw, nb)];
+                            if slot.rtype != 0 {
+                                cands.push(cref::clamp_record_ttl(cfg, slot.rtype, slot.upstream));
+                            }
+                            let ok = cands.iter().any(|c| cref::reported(*c, elapsed) == *got as u64);
+                            vensure!(
+                                ok,
+                                "negative-ttl-not-stored-minus-elapsed",
+                                "op {i}: get(q{s}) {:.3}s after insert: negative-answer TTL value {k} (upstream {raw}) reports {got}; none of stored candidates {cands:?} minus elapsed gives that",
+                                elapsed as f64 / 1e9
+                            );
+                            if slot.rtype == 0 && cref::clamp(raw, nb) != raw && cref::reported(raw, elapsed) == *got as u64 && cref::reported(cref::clamp(raw, nb), elapsed) != *got as u64 {
+                                neg_unclamped_seen = true;
+                            }
+                        }
+                    }
+                }
+                // (d) never increases between refreshes
+                if let Some((t_prev, prev)) = &entry.last_reported {
+                    for (k, (a, b)) in prev.iter().zip(&reported).enumerate() {
+                        vensure!(
+                            b <= a,
+                            "ttl-increased-between-refreshes",
+                            "op {i}: get(q{s}): TTL value {k} was {a} at t={:.3}s and is {b} at t={:.3}s without a re-insert",
+                            *t_prev as f64 / 1e9,
+                            now_ns as f64 / 1e9
+                        );
+                    }
+                }
+                entry.last_reported = Some((now_ns, reported));
+            }
+        }
+    }
+    drop(cache);
+
+    rec.count("gets", gets);
+    rec.count("hits", hits);
+    rec.count("live_gets", live_gets);
+    rec.count("live_hits", live_hits);
+    rec.count("inserts_positive", inserts_pos);
+    rec.count("inserts_negative", inserts_neg);
+    rec.count("inserts_transient", inserts_transient);
+    rec.count("entries_without_defined_L", no_l_entries);
+    if nt_reinsert_live {
+        rec.class("reinsert-of-live-key");
+    }
+    if nt_near_expiry {
+        rec.class("get-within-1s-of-expiry");
+    }
+    if nt_mixed_bounds {
+        rec.class("record-type-bounds-differ-from-query-type-bounds");
+    }
+    if readings_differ {
+        rec.class("L-readings-differ(raw-vs-stored-cname-ttl)");
+    }
+    if neg_unclamped_seen {
+        rec.class("observed:negative_ttl-reported-unclamped");
+    }
+    if !cfg.by_type.is_empty() {
+        rec.class("cfg:per-type");
+    }
+    if cfg.default == Bounds::default() && cfg.by_type.is_empty() {
+        rec.class("cfg:all-default");
+    }
+    let all_bounds: Vec<Bounds> = std::iter::once(cfg.default).chain(cfg.by_type.iter().map(|(_, b)| *b)).collect();
+    if all_bounds.iter().any(|b| b.pmin.is_some() && b.pmin == b.pmax || b.nmin.is_some() && b.nmin == b.nmax) {
+        rec.class("cfg:min=max");
+    }
+    if all_bounds.iter().any(|b| b.pmax == Some(0) || b.nmax == Some(0)) {
+        rec.class("cfg:max=0");
+    }
+    if !big_cap {
+        rec.class("capacity<4");
+    }
+    if nt_reinsert_live || nt_near_expiry || nt_mixed_bounds {
+        rec.nontrivial();
+        if rec.wants_note() {
+            rec.note(render(h));
+        }
+    }
+    Ok(())
+}
+
+// ---------------------------------------------------------------------------------------------
+// sub-property `client_clear`: the `clear` operation, through the only public route
+// (`CachingClient::{lookup, clear_cache, clear_cache_query}`; default `TtlConfig`)
+
+#[derive(Clone, Debug, Serialize, Deserialize)]
+enum Upstream {
+    /// answer records of the queried type at the query name (TTLs), optional authority NS TTL,
+    /// optional additional A TTL
+    Answer { ttls: Vec<u32>, ns: Option<u32>, glue: Option<u32> },
+    /// NXDOMAIN / NODATA with SOA (ttl, minimum) or without
+    Negative { nx: bool, soa: Option<(u32, u32)> },
+    ServFail,
+    Timeout,
+}
+
+#[derive(Clone, Debug, Serialize, Deserialize)]
+enum COp {
+    /// what upstream would answer if asked now
+    Lookup { q: u8, upstream: Upstream },
+    ClearAll,
+    ClearQuery { q: u8 },
+}
+
+#[derive(Clone, Debug, Serialize, Deserialize)]
+struct CHist {
+    qa: TypeK,
+    qb: TypeK,
+    ops: Vec<(Step, COp)>,
+}
+
+fn upstream() -> impl Strategy<Value = Upstream> {
+    prop_oneof![
+        6 => (vec(ttl(), 1..=3), opt_ttl(), opt_ttl()).prop_map(|(ttls, ns, glue)| Upstream::Answer { ttls, ns, glue }),
+        3 => (any::<bool>(), prop_oneof![1 => Just(None), 4 => (ttl(), ttl()).prop_map(Some)]).prop_map(|(nx, soa)| Upstream::Negative { nx, soa }),
+        1 => Just(Upstream::ServFail),
+        1 => Just(Upstream::Timeout),
+    ]
+}
+
+fn chist(_tier: Tier) -> impl Strategy<Value = CHist> {
+    let cop = prop_oneof![
+        10 => (0u8..3, upstream()).prop_map(|(q, upstream)| COp::Lookup { q, upstream }),
+        1 => Just(COp::ClearAll),
+        2 => (0u8..3).prop_map(|q| COp::ClearQuery { q }),
+    ];
+    let qt = prop::sample::select(vec![TypeK::A, TypeK::AAAA, TypeK::TXT, TypeK::MX]);
+    (qt.clone(), qt, vec((step(), cop), 1..=30)).prop_map(|(qa, qb, ops)| CHist { qa, qb, ops })
+}
+
+mod mock {
+    use std::sync::{Arc, Mutex};
+
+    use futures_util::future::{ready, Ready};
+    use futures_util::stream::{once, Once};
+    use hickory_net::{DnsHandle, NetError};
+    use hickory_proto::op::{DnsRequest, DnsResponse};
+
+    /// scripted upstream: hands out the response armed by the interpreter and counts the calls
+    #[derive(Clone, Default)]
+    pub struct Scripted {
+        pub next: Arc<Mutex<Option<Result<DnsResponse, NetError>>>>,
+        pub calls: Arc<Mutex<u64>>,
+    }
+
+    impl DnsHandle for Scripted {
+        type Response = Once<Ready<Result<DnsResponse, NetError>>>;
+        type Runtime = crate::sim::SimRt;
+
+        fn send(&self, _request: DnsRequest) -> Self::Response {
+            *self.calls.lock().unwrap() += 1;
+            let r = self
+                .next
+                .lock()
+                .unwrap()
+                .take()
+                .unwrap_or(Err(NetError::Message("script exhausted")));
+            once(ready(r))
+        }
+    }
+}
+
+struct CEntry {
+    t_fetch: u64,
+    op_index: usize,
+    /// stored (clamped) TTL per record in section order, or the negative TTL
+    positive: Option<Message>,
+    stored: Vec<u64>,
+    life: Option<Lifetime>,
+    cleared: bool,
+}
+
+fn client_body(h: &CHist, rec: &mut Rec) -> CaseResult {
+    use hickory_proto::op::DnsRequestOptions;
+    use hickory_resolver::caching_client::CachingClient;
+
+    let cfg = Config::default();
+    let _clock = VirtualClock::start(1_700_000_000);
+    let up = mock::Scripted::default();
+    let client = CachingClient::new(64, up.clone(), false);
+    let qtypes = [h.qa, h.qb, h.qa];
+    let queries = [
+        Query::new(name("a.example."), h.qa.rt()),
+        Query::new(name("a.example."), h.qb.rt()),
+        Query::new(name("b.example."), h.qa.rt()),
+    ];
+    let slot_of = |q: u8| -> usize {
+        let q = (q % 3) as usize;
+        if q == 1 && h.qa == h.qb {
+            0
+        } else {
+            q
+        }
+    };
+    let mut model: [Option<CEntry>; 3] = [None, None, None];
+    let mut now_ns = 0u64;
+    let (mut hits, mut live_lookups, mut live_hits, mut hit_after_clear, mut clears) = (0u64, 0u64, 0u64, 0u64, 0u64);
+    let (mut nt_clear_live, mut nt_near) = (false, false);
+
+    for (i, (st, op)) in h.ops.iter().enumerate() {
+        let before = now_ns;
+        now_ns = match *st {
+            Step::Same => now_ns,
+            Step::Ms(m) => now_ns + m as u64 * 1_000_000,
+            Step::Secs(s) => now_ns + s as u64 * NS_PER_S,
+            Step::Near { q, hi, off } => {
+                let target = model[slot_of(q)].as_ref().and_then(|e| {
+                    let l = e.life?;
+                    let l = if hi { l.hi } else { l.lo };
+                    (e.t_fetch + l * NS_PER_S).checked_add_signed(off_ns(off))
+                });
+                match target {
+                    Some(t) if t >= now_ns => t,
+                    _ => now_ns,
+                }
+            }
+        };
+        // a process cannot observe the same nanosecond before and after a clear; moka's
+        // invalidate_all is defined by timestamps, so keep the clock strictly increasing around it
+        if now_ns == before && i > 0 {
+            now_ns += 1;
+        }
+        clock::set_virtual_nanos(now_ns);
+
+        match op {
+            COp::ClearAll => {
+                clears += 1;
+                for e in model.iter_mut().flatten() {
+                    if e.life.is_some_and(|l| now_ns - e.t_fetch < l.lo * NS_PER_S) && !e.cleared {
+                        nt_clear_live = true;
+                    }
+                    e.cleared = true;
+                }
+                client.clear_cache();
+            }
+            COp::ClearQuery { q } => {
+                clears += 1;
+                let s = slot_of(*q);
+                if let Some(e) = model[s].as_mut() {
+                    if e.life.is_some_and(|l| now_ns - e.t_fetch < l.lo * NS_PER_S) && !e.cleared {
+                        nt_clear_live = true;
+                    }
+                    e.cleared = true;
+                }
+                client.clear_cache_query(&queries[s]);
+            }
+            COp::Lookup { q, upstream } => {
+                let s = slot_of(*q);
+                let (query, qtype) = (&queries[s], qtypes[s]);
+                // arm the upstream
+                let armed: Result<DnsResponse, NetError> = match upstream {
+                    Upstream::Answer { ttls, ns, glue } => {
+                        let mut m = Message::response(i as u16, OpCode::Query);
+                        m.add_query(query.clone());
+                        for (k, t) in ttls.iter().enumerate() {
+                            m.add_answer(Record::from_rdata(query.name.clone(), *t, rdata(qtype, (i * 4 + k) as u8)));
+                        }
+                        if let Some(t) = ns {
+                            m.add_authority(Record::from_rdata(name("example."), *t, rdata(TypeK::NS, 1)));
+                        }
+                        if let Some(t) = glue {
+                            m.add_additional(Record::from_rdata(name("ns1.example."), *t, rdata(TypeK::A, 7)));
+                        }
+                        Ok(DnsResponse::from_message(m).map_err(|e| harness(format!("{e}")))?)
+                    }
+                    Upstream::Negative { nx, soa } => {
+                        let mut m = Message::response(i as u16, OpCode::Query);
+                        m.metadata.response_code = if *nx { ResponseCode::NXDomain } else { ResponseCode::NoError };
+                        m.add_query(query.clone());
+                        if let Some((t, minimum)) = soa {
+                            m.add_authority(Record::from_rdata(name("example."), *t, RData::SOA(soa_rdata(i as u32, *minimum))));
+                        }
+                        Ok(DnsResponse::from_message(m).map_err(|e| harness(format!("{e}")))?)
+                    }
+                    Upstream::ServFail => {
+                        let mut m = Message::response(i as u16, OpCode::Query);
+                        m.metadata.response_code = ResponseCode::ServFail;
+                        m.add_query(query.clone());
+                        Ok(DnsResponse::from_message(m).map_err(|e| harness(format!("{e}")))?)
+                    }
+                    Upstream::Timeout => Err(NetError::Timeout),
+                };
+                *up.next.lock().unwrap() = Some(armed);
+                let calls_before = *up.calls.lock().unwrap();
+                let result = futures_executor::block_on(client.lookup(query.clone(), DnsRequestOptions::default()));
+                let asked = *up.calls.lock().unwrap() > calls_before;
+                *up.next.lock().unwrap() = None;
+
+                let live = model[s]
+                    .as_ref()
+                    .is_some_and(|e| !e.cleared && e.life.is_some_and(|l| now_ns - e.t_fetch + 1_000_000 <= l.lo * NS_PER_S));
+                if live {
+                    live_lookups += 1;
+                }
+                if let Some(e) = model[s].as_ref() {
+                    if let Some(l) = e.life {
+                        if now_ns.abs_diff(e.t_fetch + l.hi * NS_PER_S) <= NS_PER_S {
+                            nt_near = true;
+                        }
+                    }
+                }
+                if !asked {
+                    // ---- served from the cache ---------------------------------------------
+                    hits += 1;
+                    if live {
+                        live_hits += 1;
+                    }
+                    let Some(e) = model[s].as_ref() else {
+                        vfail!("client-hit-without-cacheable-fetch", "op {i}: lookup(q{s}) was answered without asking upstream although nothing cacheable was fetched before");
+                    };
+                    if e.cleared {
+                        // the statement makes no claim about clear; counted, not asserted
+                        hit_after_clear += 1;
+                    }
+                    let elapsed = now_ns - e.t_fetch;
+                    match (&result, &e.positive) {
+                        (Ok(l), Some(stored)) => {
+                            vensure!(
+                                same_records(l.answers(), &stored.answers)
+                                    && same_records(l.authorities(), &stored.authorities)
+                                    && same_records(l.additionals(), &stored.additionals),
+                                "client-hit-is-not-newest-fetch",
+                                "op {i}: lookup(q{s}) served {:?}, newest cacheable fetch (op {}) was {:?}",
+                                l.message(),
+                                e.op_index,
+                                stored
+                            );
+                            let got = pos_ttls(l.message());
+                            for (k, (g, st)) in got.iter().zip(&e.stored).enumerate() {
+                                let exp = cref::reported(*st, elapsed);
+                                vensure!(
+                                    *g as u64 == exp,
+                                    "client-positive-ttl-not-clamped-minus-elapsed",
+                                    "op {i}: lookup(q{s}) {:.3}s after fetch: record {k} reports TTL {g}, expected {st} - elapsed = {exp}",
+                                    elapsed as f64 / 1e9
+                                );
+                            }
+                        }
+                        (Err(NetError::Dns(DnsError::NoRecordsFound(n))), None) => {
+                            if let (Some(g), Some(st)) = (n.negative_ttl, e.stored.first()) {
+                                let exp = cref::reported(*st, elapsed);
+                                // unclamped and clamped coincide under the default configuration
+                                // unless the negative TTL exceeds one day
+                                vensure!(
+                                    g as u64 == exp || *st >= cref::DAY,
+                                    "client-negative-ttl-not-stored-minus-elapsed",
+                                    "op {i}: lookup(q{s}) {:.3}s after fetch: negative TTL {g}, expected {st} - elapsed = {exp}",
+                                    elapsed as f64 / 1e9
+                                );
+                            }
+                        }
+                        (Err(err), _) if !matches!(err, NetError::Dns(DnsError::NoRecordsFound(_))) => {
+                            vfail!("client-transient-error-served-from-cache", "op {i}: lookup(q{s}) returned {err:?} without asking upstream");
+                        }
+                        _ => {
+                            vfail!(
+                                "client-hit-is-not-newest-fetch",
+                                "op {i}: lookup(q{s}) served {:?} from the cache, newest cacheable fetch was op {}",
+                                result.as_ref().map(|l| l.message().clone()),
+                                e.op_index
+                            );
+                        }
+                    }
+                    if let Some(l) = e.life {
+                        vensure!(
+                            elapsed <= l.hi * NS_PER_S,
+                            if e.positive.is_some() { "client-positive-served-past-lifetime" } else { "client-negative-served-past-lifetime" },
+                            "op {i}: lookup(q{s}) served from the cache {:.9}s after the fetch (op {}), L = {}s",
+                            elapsed as f64 / 1e9,
+                            e.op_index,
+                            l.hi
+                        );
+                    }
+                } else {
+                    // ---- fetched: update the model -------------------------------------------
+                    match upstream {
+                        Upstream::Answer { ttls, ns, glue } => {
+                            let mut typed: Vec<(u16, u32)> = ttls.iter().map(|t| (qtype.code(), *t)).collect();
+                            if let Some(t) = ns {
+                                typed.push((2, *t));
+                            }
+                            if let Some(t) = glue {
+                                typed.push((1, *t));
+                            }
+                            let stored: Vec<u64> = typed.iter().map(|(t, ttl)| cref::clamp_record_ttl(&cfg, *t, *ttl)).collect();
+                            let life = cref::positive_lifetime(&cfg, qtype.code(), &typed);
+                            let msg = match &result {
+                                Ok(l) => l.message().clone(),
+                                Err(e) => vfail!("client-positive-answer-became-error", "op {i}: lookup(q{s}) with a direct answer upstream returned {e:?}"),
+                            };
+                            // the freshly fetched lookup already carries the clamped TTLs
+                            let got = pos_ttls(&msg);
+                            vensure!(
+                                got.len() == stored.len() && got.iter().zip(&stored).all(|(g, s)| *g as u64 == *s),
+                                "client-fresh-ttl-not-clamped",
+                                "op {i}: fresh lookup(q{s}) reports TTLs {got:?}, expected clamped {stored:?}"
+                            );
+                            model[s] = Some(CEntry {
+                                t_fetch: now_ns,
+                                op_index: i,
+                                positive: Some(msg),
+                                stored,
+                                life,
+                                cleared: false,
+                            });
+                        }
+                        Upstream::Negative { soa, .. } => {
+                            let nttl = soa.map(|(t, m)| cref::rfc2308_negative_ttl(t, m));
+                            model[s] = Some(CEntry {
+                                t_fetch: now_ns,
+                                op_index: i,
+                                positive: None,
+                                stored: nttl.map(|n| vec![n as u64]).unwrap_or_default(),
+                                life: cref::negative_lifetime(&cfg, qtype.code(), nttl),
+                                cleared: false,
+                            });
+                        }
+                        // transient: nothing cacheable, the previous entry (if any) stays what it was
+                        Upstream::ServFail | Upstream::Timeout => {}
+                    }
+                }
+            }
+        }
+    }
+    drop(client);
+    rec.count("hits", hits);
+    rec.count("live_lookups", live_lookups);
+    rec.count("live_hits", live_hits);
+    rec.count("clears", clears);
+    rec.count("hit_after_clear(not-asserted)", hit_after_clear);
+    if nt_clear_live {
+        rec.class("clear-of-live-entry");
+    }
+    if nt_near {
+        rec.class("lookup-within-1s-of-expiry");
+    }
+    if nt_clear_live || nt_near {
+        rec.nontrivial();
+        if rec.wants_note() {
+            rec.note(format!("{h:?}"));
+        }
+    }
+    Ok(())
+}
 
 pub fn check() -> Option<Check> {
-    None
+    let histories = prop("histories", 200_000, 4_000_000, hist, body);
+    let client_clear = prop("client_clear", 50_000, 1_000_000, chist, client_body);
+    Some(Check {
+        id: "C15",
+        level: "exploration",
+        rule: "histories of <=30 (thorough 40) insert/get operations over 3 queries (2 names x 2 types) with non-decreasing nanosecond times (steps 0, sub-second, 1-5 s, large jumps, and jumps to the model's expiry instant +-{0,1ns,0.5s,1s}); results: positive messages with 0-6 records of the queried type / CNAME / other types spread over answer, authority and additional with independent TTLs (0..11 mostly, 3600+-5, 86400+-5, >1 day, 2^31-1), NoRecordsFound built directly (with/without negative_ttl, SOA, authorities, NS+glue) or through DnsError::from_response (SOA ttl/minimum), transient errors (timeout, io, SERVFAIL, REFUSED, busy, no connections, message); TtlConfig built through its serde form with default and 0-3 per-type tables, each bound unset / 0 / 1-9 / 30-3600 / >= 1 day, min<=max enforced, explicit min=max class. Non-trivial = distinct history AND (re-insert of a key whose entry is live, OR a get within 1 s of the model's expiry instant, OR a record whose own type's bounds clamp differently from the query type's bounds)",
+        assumptions: vec![
+            "virtual clock (interposed clock_gettime) equals the Instant passed to insert/get, as for the real callers which pass Instant::now()",
+            "configurations with min > max (after defaults 0 s / 1 day) are outside the domain: the statement's clamp is undefined there (the implementation panics in clamp)",
+            "None from get is always accepted (eviction); hit ratio on certainly-live entries is reported in coverage.counters (histories/live_hits over histories/live_gets)",
+            "where the message has no record of the queried type and no CNAME, or a negative answer has no negative TTL, the statement defines no L: only TTL countdown is asserted",
+            "L is asserted against the weaker of two readings (smallest upstream TTL vs smallest per-type-clamped TTL of qtype/CNAME records, then clamped to the query type's bounds)",
+            "TTL values inside a negative answer may be reported from the unclamped or the clamped stored value (statement silent)",
+            "ResponseCache::clear is pub(crate); clear is not reachable on a cache with a custom TtlConfig from outside the crate",
+        ],
+        subs: vec![histories, client_clear],
+    })
 }
